@@ -53,6 +53,7 @@ finally:
 # run the checks against it (in a scratch worktree via VERIF_REPO while other work reads /repo;
 # SEED_IN_REPO=1 applies the patch to /repo itself and undoes it afterwards)
 results = {}
+out_dir = "/tmp/sv_out_" + name      # build / evidence / replay output of the runs on the changed tree (removed below)
 in_repo = os.environ.get("SEED_IN_REPO") == "1"
 if in_repo:
     rc, out = sh(f"git -C /repo apply {patch}")
@@ -67,9 +68,9 @@ if rc != 0:
 try:
     for pr in [prop] + extra_checks:
         t0 = time.time()
-        e2 = dict(os.environ, VERIF_REPO=target_repo)
+        e2 = dict(os.environ, VERIF_REPO=target_repo, VERIF_OUT=out_dir)
         p = subprocess.run(["./check", pr], cwd=V, capture_output=True, text=True, env=e2)
-        lines = [l for l in p.stdout.split("\n") if l.startswith(("VIOLATION", "UNDECIDED", "KNOWN-FINDING", "property ", "  obligation"))]
+        lines = [l.replace(out_dir, "<out>") for l in p.stdout.split("\n") if l.startswith(("VIOLATION", "UNDECIDED", "KNOWN-FINDING", "property ", "  obligation"))]
         results[pr] = {"exit": p.returncode, "lines": lines[-8:], "wall_s": round(time.time() - t0, 1)}
         print(f"  check {pr}: exit {p.returncode}  " + " | ".join(lines[-3:])[:400])
 finally:
@@ -77,8 +78,7 @@ finally:
         subprocess.run("git -C /repo checkout -- .", shell=True)
     else:
         subprocess.run(["git", "-C", "/repo", "worktree", "remove", "--force", wt], capture_output=True)
-    # evidence files written by a run on a changed tree must not stay: restore the committed ones
-    subprocess.run("git -C %s checkout -- evidence 2>/dev/null" % V, shell=True)
+    shutil.rmtree(out_dir, ignore_errors=True)
 meta["check_results"] = results
 meta["caught_by"] = [pr for pr, r in results.items() if r["exit"] == 1]
 dst = os.path.join(V, "seeded", name)
